@@ -45,7 +45,7 @@ def run(ctx):
             if a['kind'] == 'nonce':
                 ptab.append((a['label'], shape(a['j']), shape(a['k'])))
     # recoverer: direct nonce calls in the verifier core
-    rsites = [(bb, ctx.args(v, bb)) for bb, t in ctx.calls(v) if callee_name(t).split('::')[-1] == 'nonce' and callee_name(t) in ctx.facts.fn]
+    rsites = [(bb, ctx.args(v, bb)) for bb, t in ctx.calls(v) if callee_name(t) in R.nonce_fns(ctx)]
     rtab = []
     for bb, a in rsites:
         lab = a[1][1] if a[1].tag == 'const' else None
